@@ -364,11 +364,28 @@ type subCall struct {
 	set  core.SignedDataSet
 }
 
+// A schedule is one call or a SEQUENCE of calls on one Aggregator (with one verifier) instance: every call is judged on
+// its own (the statement is per call), so every call is a trace of its own (Reset with the schedule's sid).
 func runOne(t *testing.T, e *env, tr sink, sid int, sched []drv.Step, rep int) {
-	if len(sched) != 1 || drv.Str(sched[0]["ev"]) != "Call" {
-		fatalf("schedule %d: expected one Call step", sid)
+	if len(sched) == 0 {
+		fatalf("schedule %d: empty", sid)
 	}
-	c := sched[0]
+	sh := &sharedAgg{}
+	for _, c := range sched {
+		if drv.Str(c["ev"]) != "Call" {
+			fatalf("schedule %d: expected Call steps only", sid)
+		}
+		runCall(t, e, tr, sid, c, rep, sh)
+	}
+}
+
+type sharedAgg struct {
+	agg   *sigagg.Aggregator
+	T     int
+	calls *[]subCall
+}
+
+func runCall(t *testing.T, e *env, tr sink, sid int, c drv.Step, rep int, sh *sharedAgg) {
 	typ, ver, bucket := drv.Str(c["typ"]), drv.Str(c["ver"]), drv.Str(c["bucket"])
 	T, N := drv.Num(c["T"]), drv.Num(c["N"])
 	domain, esrc := drv.Str(c["domain"]), drv.Str(c["esrc"])
@@ -466,17 +483,23 @@ func runOne(t *testing.T, e *env, tr sink, sid int, sched []drv.Step, rep int) {
 		input[vs[k].corePub] = lists[k]
 	}
 
-	agg, err := sigagg.New(T, sigagg.NewVerifier(e.bmock))
-	if err != nil {
-		fatalf("sigagg.New: %v", err)
+	if sh.agg == nil {
+		agg, err := sigagg.New(T, sigagg.NewVerifier(e.bmock))
+		if err != nil {
+			fatalf("sigagg.New: %v", err)
+		}
+		sh.agg, sh.T, sh.calls = agg, T, new([]subCall)
+		for k := 1; k <= 2; k++ {
+			agg.Subscribe(func(_ context.Context, duty core.Duty, set core.SignedDataSet) error {
+				*sh.calls = append(*sh.calls, subCall{k: k, duty: duty, set: set})
+				return nil
+			})
+		}
+	} else if sh.T != T {
+		fatalf("schedule %d: the calls of a sequence must share the threshold", sid)
 	}
-	var calls []subCall
-	for k := 1; k <= 2; k++ {
-		agg.Subscribe(func(_ context.Context, duty core.Duty, set core.SignedDataSet) error {
-			calls = append(calls, subCall{k: k, duty: duty, set: set})
-			return nil
-		})
-	}
+	agg := sh.agg
+	*sh.calls = nil
 	tr.Emit(drv.Step{"ev": "Call", "typ": typ, "ver": ver, "bucket": bucket, "domain": domain, "esrc": esrc, "vals": c["vals"]})
 
 	duty := core.Duty{Slot: own*e.slotsPerEpoch + 3, Type: dutyType(typ)}
@@ -489,7 +512,7 @@ func runOne(t *testing.T, e *env, tr sink, sid int, sched []drv.Step, rep int) {
 		aggErr = agg.Aggregate(e.ctx, duty, input)
 	}()
 
-	for _, sc := range calls {
+	for _, sc := range *sh.calls {
 		pubs := []drv.Step{}
 		for pk, sd := range sc.set {
 			vi := 0
